@@ -5,6 +5,8 @@
 -/
 import Scico.Proofs.DriverTimer
 
+set_option linter.unusedSimpArgs false
+
 namespace Scico.Driver
 open Scico.Driver.Spec
 
@@ -497,5 +499,189 @@ theorem solve_trip (E : Env ω ρ ξ α) (cb : Option (Callback ω)) (d : Drv ω
   · simp only [stepped, hat.clock, hat.world, stepTime_succ]
     simp only [Drv.timerStart]
     omega
+
+/-! ### resumption -/
+
+/-! projections of `setMaxiter` / `tick` -/
+section
+omit [DecidableEq L]
+@[simp] theorem setMaxiter_world (d : Drv ω ρ L) (m : Int) : (d.setMaxiter m).world = d.world := rfl
+@[simp] theorem setMaxiter_clock (d : Drv ω ρ L) (m : Int) : (d.setMaxiter m).clock = d.clock := rfl
+@[simp] theorem setMaxiter_itnum (d : Drv ω ρ L) (m : Int) : (d.setMaxiter m).itnum = d.itnum := rfl
+@[simp] theorem setMaxiter_nanstop (d : Drv ω ρ L) (m : Int) : (d.setMaxiter m).nanstop = d.nanstop := rfl
+@[simp] theorem setMaxiter_timer (d : Drv ω ρ L) (m : Int) : (d.setMaxiter m).timer = d.timer := rfl
+@[simp] theorem setMaxiter_rows (d : Drv ω ρ L) (m : Int) : (d.setMaxiter m).rows = d.rows := rfl
+@[simp] theorem setMaxiter_cblog (d : Drv ω ρ L) (m : Int) : (d.setMaxiter m).cblog = d.cblog := rfl
+@[simp] theorem setMaxiter_tlog (d : Drv ω ρ L) (m : Int) : (d.setMaxiter m).tlog = d.tlog := rfl
+@[simp] theorem setMaxiter_maxiter (d : Drv ω ρ L) (m : Int) : (d.setMaxiter m).maxiter = m := rfl
+@[simp] theorem tick_world (d : Drv ω ρ L) (g : Nat) : (d.tick g).world = d.world := rfl
+@[simp] theorem tick_itnum (d : Drv ω ρ L) (g : Nat) : (d.tick g).itnum = d.itnum := rfl
+@[simp] theorem tick_nanstop (d : Drv ω ρ L) (g : Nat) : (d.tick g).nanstop = d.nanstop := rfl
+@[simp] theorem tick_timer (d : Drv ω ρ L) (g : Nat) : (d.tick g).timer = d.timer := rfl
+@[simp] theorem tick_rows (d : Drv ω ρ L) (g : Nat) : (d.tick g).rows = d.rows := rfl
+@[simp] theorem tick_cblog (d : Drv ω ρ L) (g : Nat) : (d.tick g).cblog = d.cblog := rfl
+@[simp] theorem tick_tlog (d : Drv ω ρ L) (g : Nat) : (d.tick g).tlog = d.tlog := rfl
+@[simp] theorem tick_maxiter (d : Drv ω ρ L) (g : Nat) : (d.tick g).maxiter = d.maxiter := rfl
+@[simp] theorem tick_clock (d : Drv ω ρ L) (g : Nat) : (d.tick g).clock = d.clock + g := rfl
+end
+
+theorem StoppedAt.read {T0 T : Timer L} {e : Nat} (h : StoppedAt T0 T e) (c : Nat) :
+    T.elapsedDefault true c = e := by
+  obtain ⟨hd, _, hs⟩ := h
+  simp [Timer.elapsedDefault, hs, hd, Store.get_set, elapsedEntry]
+
+theorem StoppedAt.wf {T0 T : Timer L} {e : Nat} (h : StoppedAt T0 T e) (c : Nat) : TimerWF T c := by
+  obtain ⟨hd, _, hs⟩ := h
+  intro e' he' s hs'
+  rw [hs, hd, Store.get_set] at he'
+  simp only [if_true, Option.some.injEq] at he'
+  subst he'
+  simp at hs'
+
+theorem specRow_shift (E : Env ω ρ ξ α) (cb : Option (Callback ω)) (w : ω) (i0 : Int) (e0 a k : Nat) :
+    specRow E cb w i0 e0 (a + k) =
+      specRow E cb (worldAt E cb w a) (i0 + a) (e0 + stepTime E cb w a) k := by
+  simp only [specRow, afterStep_add]
+  rw [show a + k + 1 = a + (k + 1) by omega, stepTime_add]
+  congr 1 <;> omega
+
+theorem specCb_shift (E : Env ω ρ ξ α) (cb : Option (Callback ω)) (w : ω) (i0 : Int) (c0 a k : Nat) :
+    specCb E cb w i0 c0 (a + k) =
+      specCb E cb (worldAt E cb w a) (i0 + a) (c0 + stepTime E cb w a + cbTime E cb w a) k := by
+  simp only [specCb, afterStep_add]
+  rw [show a + k + 1 = a + (k + 1) by omega, stepTime_add, cbTime_add]
+  congr 1 <;> omega
+
+omit [DecidableEq L] in
+theorem timer_ext (T T' : Timer L) (h1 : T.store = T'.store) (h2 : T.dflt = T'.dflt)
+    (h3 : T.all = T'.all) : T = T' := by
+  cases T; cases T'; simp_all
+
+/-- `solve()` with `m₁` iterations, any pause, `solve()` with `m₂` iterations — against one
+    `solve()` with `m₁ + m₂` iterations -/
+theorem solve_resume (E : Env ω ρ ξ α) (cb : Option (Callback ω)) (d : Drv ω ρ L) (m1 m2 g : Nat)
+    (hda : d.timer.dflt ≠ d.timer.all) (hwf : TimerWF d.timer d.clock)
+    (hclean : ∀ k < m1 + m2, tripsB E d.nanstop (afterStep E cb d.world k) = false) :
+    let r1 := solve E cb (d.setMaxiter m1)
+    let r2 := solve E cb ((r1.1.tick g).setMaxiter m2)
+    let r := solve E cb (d.setMaxiter ((m1 + m2 : Nat) : Int))
+    r1.2 = .ok ∧ r2.2 = .ok ∧ r.2 = .ok ∧ r2.1.world = r.1.world ∧ r2.1.itnum = r.1.itnum ∧
+      r2.1.rows = r.1.rows ∧ r2.1.timer = r.1.timer ∧ r2.1.clock = r.1.clock + g ∧
+      (g = 0 → r2.1.cblog = r.1.cblog) := by
+  intro r1 r2 r
+  have hr1 : solve E cb (d.setMaxiter m1) = r1 := rfl
+  have hr2 : solve E cb ((r1.1.tick g).setMaxiter m2) = r2 := rfl
+  have hr : solve E cb (d.setMaxiter ((m1 + m2 : Nat) : Int)) = r := rfl
+  clear_value r r2 r1
+  have t1 : (d.setMaxiter (m1 : Int)).maxiter.toNat = m1 := by simp
+  have t12 : (d.setMaxiter ((m1 + m2 : Nat) : Int)).maxiter.toNat = m1 + m2 := by
+    simp only [setMaxiter_maxiter, Int.toNat_natCast]
+  obtain ⟨ok1, S1⟩ := solve_clean E cb (d.setMaxiter m1) hda hwf
+    (by rw [t1]; intro k hk; exact hclean k (by omega))
+  obtain ⟨ok, S⟩ := solve_clean E cb (d.setMaxiter ((m1 + m2 : Nat) : Int)) hda hwf
+    (by rw [t12]; exact hclean)
+  rw [hr1] at ok1 S1
+  rw [hr] at ok S
+  have S1w := S1.world; have S1c := S1.clock; have S1i := S1.itnum; have S1r := S1.rows
+  have S1n := S1.nanstop; have S1t := S1.timer; have S1b := S1.cblog
+  rw [t1] at S1w S1c S1i S1r S1t S1b
+  simp only [setMaxiter_world, setMaxiter_clock, setMaxiter_itnum, setMaxiter_nanstop, setMaxiter_timer, setMaxiter_rows, setMaxiter_cblog, setMaxiter_tlog, setMaxiter_maxiter, tick_world, tick_itnum, tick_nanstop, tick_timer, tick_rows, tick_cblog, tick_tlog, tick_maxiter, tick_clock] at S1w S1c S1i S1r S1n S1t S1b
+  -- the object before the second call
+  have hda' : ((r1.1.tick g).setMaxiter m2).timer.dflt ≠ ((r1.1.tick g).setMaxiter m2).timer.all := by
+    show r1.1.timer.dflt ≠ r1.1.timer.all
+    rw [S1t.1, S1t.2.1]; exact hda
+  have hwf' : TimerWF ((r1.1.tick g).setMaxiter m2).timer ((r1.1.tick g).setMaxiter m2).clock :=
+    S1t.wf _
+  have t2 : ((r1.1.tick g).setMaxiter (m2 : Int)).maxiter.toNat = m2 := by simp
+  have hw' : ((r1.1.tick g).setMaxiter (m2 : Int)).world = worldAt E cb d.world m1 := S1w
+  have hn' : ((r1.1.tick g).setMaxiter (m2 : Int)).nanstop = d.nanstop := S1n
+  obtain ⟨ok2, S2⟩ := solve_clean E cb ((r1.1.tick g).setMaxiter m2) hda' hwf'
+    (by rw [t2, hw', hn']; intro k hk; rw [← afterStep_add]; exact hclean (m1 + k) (by omega))
+  rw [hr2] at ok2 S2
+  have S2w := S2.world; have S2c := S2.clock; have S2i := S2.itnum; have S2r := S2.rows
+  have S2t := S2.timer; have S2b := S2.cblog
+  rw [t2] at S2w S2c S2i S2r S2t S2b
+  rw [hw'] at S2w S2c S2r S2t S2b
+  have he' : ((r1.1.tick g).setMaxiter (m2 : Int)).timer.elapsedDefault true
+      ((r1.1.tick g).setMaxiter (m2 : Int)).clock =
+      d.timer.elapsedDefault true d.clock + stepTime E cb d.world m1 := S1t.read _
+  rw [he'] at S2r S2t
+  simp only [setMaxiter_world, setMaxiter_clock, setMaxiter_itnum, setMaxiter_nanstop, setMaxiter_timer, setMaxiter_rows, setMaxiter_cblog, setMaxiter_tlog, setMaxiter_maxiter, tick_world, tick_itnum, tick_nanstop, tick_timer, tick_rows, tick_cblog, tick_tlog, tick_maxiter, tick_clock] at S2c S2i S2r S2t S2b
+  have Sw := S.world; have Sc := S.clock; have Si := S.itnum; have Sr := S.rows
+  have St := S.timer; have Sb := S.cblog
+  rw [t12] at Sw Sc Si Sr St Sb
+  simp only [setMaxiter_world, setMaxiter_clock, setMaxiter_itnum, setMaxiter_nanstop, setMaxiter_timer, setMaxiter_rows, setMaxiter_cblog, setMaxiter_tlog, setMaxiter_maxiter, tick_world, tick_itnum, tick_nanstop, tick_timer, tick_rows, tick_cblog, tick_tlog, tick_maxiter, tick_clock] at Sw Sc Si Sr St Sb
+  refine ⟨ok1, ok2, ok, ?_, ?_, ?_, ?_, ?_, ?_⟩
+  · rw [S2w, Sw, worldAt_add]
+  · rw [S2i, Si, S1i]; push_cast; omega
+  · rw [S2r, Sr, S1r, List.range_add, List.map_append, List.map_map, List.append_assoc]
+    congr 2
+    apply List.map_congr_left
+    intro k _
+    simp only [Function.comp]
+    rw [specRow_shift, S1i]
+  · apply timer_ext
+    · rw [S2t.2.2, St.2.2, start_none_store, S1t.2.2, start_none_store]
+      simp only [start_dflt, S1t.1, Store.set_set, stepTime_add]
+      congr 2
+      omega
+    · rw [S2t.1, St.1]; simp [S1t.1]
+    · rw [S2t.2.1, St.2.1]; simp [S1t.2.1]
+  · rw [S2c, Sc, S1c, stepTime_add, cbTime_add]; omega
+  · intro hg
+    subst hg
+    rw [S2b, Sb, S1b]
+    cases cb with
+    | none => simp
+    | some c =>
+      simp only [Option.isSome_some, if_true, List.range_add, List.map_append, List.map_map,
+        List.append_assoc]
+      congr 2
+      apply List.map_congr_left
+      intro k _
+      simp only [Function.comp]
+      rw [specCb_shift, S1i, S1c]
+      simp
+
+/-! ### packaging for the property theorems -/
+
+/-- what is assumed of the optimiser object when `solve` is called: its timer is the
+    `Timer()` the constructor made (default label ≠ all-label), and a default timer that is still
+    running (left so by an earlier NaN stop) was not started in the future -/
+structure Ready (d : Drv ω ρ L) : Prop where
+  labels : d.timer.dflt ≠ d.timer.all
+  past : TimerWF d.timer d.clock
+
+/-- no iteration of this `solve()` call trips the NaN stop -/
+def NoTrip (E : Env ω ρ ξ α) (cb : Option (Callback ω)) (d : Drv ω ρ L) : Prop :=
+  ∀ k < d.maxiter.toNat, ¬ tripsAt E cb d.world d.nanstop k
+
+theorem noTrip_tripsB {E : Env ω ρ ξ α} {cb : Option (Callback ω)} {d : Drv ω ρ L}
+    (h : NoTrip E cb d) : ∀ k < d.maxiter.toNat, tripsB E d.nanstop (afterStep E cb d.world k) = false := by
+  intro k hk
+  have := h k hk
+  rw [← tripsB_iff] at this
+  simpa using this
+
+theorem first_trip (p : Nat → Bool) (m : Nat) :
+    (∀ k < m, p k = false) ∨ ∃ j < m, (∀ k < j, p k = false) ∧ p j = true := by
+  induction m with
+  | zero => left; intro k hk; omega
+  | succ m ih =>
+    rcases ih with h | ⟨j, hj, hc, ht⟩
+    · cases hp : p m with
+      | false =>
+        left; intro k hk
+        by_cases hkm : k = m
+        · subst hkm; exact hp
+        · exact h k (by omega)
+      | true => right; exact ⟨m, by omega, h, hp⟩
+    · right; exact ⟨j, by omega, hc, ht⟩
+
+theorem ready_init (w : ω) (o : Options) (dflt all : L) (c : Nat) (h : dflt ≠ all) :
+    Ready (Drv.init (ρ := ρ) w o dflt all c) := by
+  refine ⟨h, ?_⟩
+  intro e he
+  simp [Drv.init, Timer.init, Store.get] at he
 
 end Scico.Driver
